@@ -66,6 +66,8 @@ func (h *harness) litSource(c *litCheck, src string) presult {
 	if r.accepted() {
 		v, _ := h.run(src) // literal statements only: harmless to execute
 		c.set(5, !strings.HasPrefix(v, "!panic") && v != "!timeout", fmt.Sprintf("Run(%q) -> %s", src, v))
+		v2, _ := h.run(src) // the same accepted source again: same result
+		c.set(5, v2 == v, fmt.Sprintf("Run(%q) twice -> %s then %s", src, v, v2))
 		h.run("delete this.x; delete this.y")
 	} else {
 		a, b, e, note := h.runtimeFlags(src)
